@@ -1,54 +1,606 @@
+// tibcsim: deterministic simulation checker for the tibc-go properties.
+//
+//	tibcsim check <property> <quick|thorough>   orchestrates worker processes, writes evidence
+//	tibcsim worker ...                          (internal) runs a slice of the seed batch
+//	tibcsim replay <file>                       re-executes a replay file
+//	tibcsim run <profile> <seed>                one run, verbose
+//	tibcsim list                                properties and profiles
 package main
 
 import (
+	"bufio"
+	"encoding/json"
 	"fmt"
 	"os"
-
-	sdk "github.com/cosmos/cosmos-sdk/types"
-	nfttypes "mods.irisnet.org/modules/nft/types"
-
-	nfttransfer "github.com/bianjieai/tibc-go/modules/tibc/apps/nft_transfer/types"
+	"os/exec"
+	"path/filepath"
+	"runtime"
+	"sort"
+	"strconv"
+	"strings"
+	"sync"
+	"time"
 
 	"tibcsim/chooser"
-	"tibcsim/world"
+	"tibcsim/core"
+	"tibcsim/props"
 )
 
-func must(err error) {
-	if err != nil {
-		fmt.Println("ERR", err)
-		os.Exit(2)
+var verifDir = envOr("VERIF_DIR", "/verif")
+
+func envOr(k, d string) string {
+	if v := os.Getenv(k); v != "" {
+		return v
 	}
+	return d
+}
+
+func envInt(k string, d int) int {
+	if v := os.Getenv(k); v != "" {
+		if i, err := strconv.Atoi(v); err == nil {
+			return i
+		}
+	}
+	return d
 }
 
 func main() {
-	ch := chooser.NewGenerator(1)
-	w, err := world.NewWorld(ch, world.WorldConfig{ChainNames: []string{"chain-aaa", "chain-bbb"}})
-	must(err)
-	must(w.ConnectAll(world.DefaultClientParams()))
-	a, b := w.Nodes[0], w.Nodes[1]
-	u := w.Users[0]
-	r, err := w.One(a, &world.TxReq{Signer: u, Msgs: []sdk.Msg{nfttypes.NewMsgIssueDenom("kitty", "kitty", "", u.Addr.String(), "", false, false, "", "", "", "")}, Label: "issue"})
-	must(err)
-	fmt.Println("issue", r.Code, r.Log)
-	r, err = w.One(a, &world.TxReq{Signer: u, Msgs: []sdk.Msg{nfttypes.NewMsgMintNFT("aaa", "kitty", "", "uri", "", "", u.Addr.String(), u.Addr.String())}, Label: "mint"})
-	must(err)
-	fmt.Println("mint", r.Code, r.Log)
-	r, err = w.One(a, &world.TxReq{Signer: u, Msgs: []sdk.Msg{nfttransfer.NewMsgNftTransfer("kitty", "aaa", u.Addr.String(), w.Users[1].Addr.String(), b.Name, "", "")}, Label: "xfer"})
-	must(err)
-	fmt.Println("xfer", r.Code, r.Log)
-	evs := world.ParsePacketEvents(r.Events)
-	fmt.Printf("%+v\n", evs)
-	p := evs[0].Packet
-	_, err = w.Block(a, nil, world.NoCrash)
-	must(err)
-	ur, err := w.SyncClient(b, a, w.Relayers[0])
-	must(err)
-	fmt.Println("update", ur.Code, ur.Log)
-	msg, err := w.MsgRecv(p, a, r.Height, w.Relayers[0])
-	must(err)
-	rr, err := w.One(b, &world.TxReq{Signer: w.Relayers[0], Msgs: []sdk.Msg{msg}, Label: "recv"})
-	must(err)
-	fmt.Println("recv", rr.Code, rr.Log)
-	fmt.Printf("%+v\n", world.ParsePacketEvents(rr.Events))
-	fmt.Println(w.Log.Hash())
+	if len(os.Args) < 2 {
+		usage()
+	}
+	switch os.Args[1] {
+	case "check":
+		if len(os.Args) < 4 {
+			usage()
+		}
+		os.Exit(cmdCheck(os.Args[2], os.Args[3]))
+	case "worker":
+		os.Exit(cmdWorker(os.Args[2:]))
+	case "replay":
+		if len(os.Args) < 3 {
+			usage()
+		}
+		os.Exit(cmdReplay(os.Args[2]))
+	case "run":
+		if len(os.Args) < 4 {
+			usage()
+		}
+		os.Exit(cmdRun(os.Args[2], os.Args[3]))
+	case "list":
+		for _, p := range props.Properties() {
+			for _, pr := range props.Profiles(p) {
+				fmt.Printf("%s\t%s\tweight=%d fault=%v\t%s\n", p, pr.Name, pr.Weight, pr.Fault, pr.Doc)
+			}
+		}
+	case "selftest-determinism":
+		os.Exit(cmdSelftestDeterminism(os.Args[2:]))
+	default:
+		usage()
+	}
+}
+
+func usage() {
+	fmt.Fprintln(os.Stderr, "usage: tibcsim check <prop> <quick|thorough> | replay <file> | run <profile> <seed> | list | selftest-determinism [props...]")
+	os.Exit(2)
+}
+
+// profileFor maps a run index to a profile by weight (deterministic).
+func profileFor(ps []*core.Profile, idx uint64) *core.Profile {
+	total := 0
+	for _, p := range ps {
+		total += p.Weight
+	}
+	v := int(idx % uint64(total))
+	for _, p := range ps {
+		if v < p.Weight {
+			return p
+		}
+		v -= p.Weight
+	}
+	return ps[0]
+}
+
+func loadKnown(prop string) (*core.FindingsFile, map[string]bool) {
+	ff, err := core.LoadFindings(filepath.Join(verifDir, "known_findings.json"))
+	if err != nil {
+		fmt.Fprintln(os.Stderr, "cannot read known_findings.json:", err)
+		os.Exit(2)
+	}
+	return ff, ff.OpenFor(prop)
+}
+
+// ---------------------------------------------------------------- worker
+
+func cmdWorker(args []string) int {
+	// worker <prop> <seed> <i> <n> <deadlineUnix> <maxRuns> <tier>
+	if len(args) < 7 {
+		return 2
+	}
+	prop := args[0]
+	seed, _ := strconv.ParseUint(args[1], 10, 64)
+	wi, _ := strconv.Atoi(args[2])
+	wn, _ := strconv.Atoi(args[3])
+	dl, _ := strconv.ParseInt(args[4], 10, 64)
+	maxRuns, _ := strconv.Atoi(args[5])
+	tier := args[6]
+	deadline := time.Unix(dl, 0)
+	ps := props.Profiles(prop)
+	if len(ps) == 0 {
+		fmt.Fprintln(os.Stderr, "no profiles for", prop)
+		return 2
+	}
+	_, known := loadKnown(prop)
+	out := bufio.NewWriter(os.Stdout)
+	defer out.Flush()
+	enc := json.NewEncoder(out)
+	for idx := uint64(wi); int(idx) < maxRuns; idx += uint64(wn) {
+		if time.Now().After(deadline) {
+			break
+		}
+		p := profileFor(ps, idx)
+		rs := chooser.Mix(seed, p.Name, idx)
+		res := core.Execute(p, chooser.NewGenerator(rs), known, tier, idx < 2)
+		res.Seed = rs
+		if res.Viol == nil && res.Err == "" {
+			res.Tape = nil
+			if idx >= 2 {
+				res.Trace = nil
+			}
+		}
+		if err := enc.Encode(res); err != nil {
+			return 2
+		}
+		out.Flush()
+	}
+	return 0
+}
+
+// ---------------------------------------------------------------- check
+
+type agg struct {
+	runs         int
+	nontrivial   int
+	distinct     map[string]bool
+	shapes       map[string]bool
+	grams        map[string]bool
+	stats        map[string]int
+	knownHits    map[string]int
+	perProfile   map[string]int
+	simSeconds   float64
+	steps        int
+	blocks       int
+	txs          int
+	samples      []interface{}
+	violations   []*core.Result
+	errors       []*core.Result
+	wallMsInRuns int64
+}
+
+func cmdCheck(prop, tier string) int {
+	start := time.Now()
+	ps := props.Profiles(prop)
+	if len(ps) == 0 {
+		fmt.Fprintln(os.Stderr, "unknown property / no profiles:", prop)
+		return 2
+	}
+	seed := uint64(envInt("VERIF_SEED", 1))
+	budget := envInt("VERIF_BUDGET_S", map[string]int{"quick": 40, "thorough": 900}[tier])
+	if budget == 0 {
+		budget = 40
+	}
+	workers := envInt("VERIF_WORKERS", runtime.NumCPU())
+	maxRuns := envInt("VERIF_MAX_RUNS", 1<<30)
+	fmt.Printf("tibcsim check property=%s tier=%s VERIF_SEED=%d budget=%ds workers=%d\n", prop, tier, seed, budget, workers)
+
+	ff, known := loadKnown(prop)
+	exit := 0
+
+	// 1. committed replays of known findings
+	reproduced := []string{}
+	for _, f := range ff.Findings {
+		if f.Property != prop {
+			continue
+		}
+		path := filepath.Join(verifDir, f.Replay)
+		rf, err := core.ReadReplay(path)
+		if err != nil {
+			fmt.Fprintln(os.Stderr, "cannot read finding replay:", err)
+			return 2
+		}
+		p := props.Find(rf.Profile)
+		if p == nil {
+			fmt.Fprintln(os.Stderr, "finding replay names unknown profile", rf.Profile)
+			return 2
+		}
+		// the finding's own signature must not be suppressed while replaying it
+		k2 := map[string]bool{}
+		for s := range known {
+			if s != f.Signature {
+				k2[s] = true
+			}
+		}
+		res := core.Execute(p, chooser.NewReplayer(rf.Tape), k2, "replay", false)
+		if res.Err != "" {
+			fmt.Fprintf(os.Stderr, "finding replay %s: machinery error: %s\n", f.Replay, res.Err)
+			return 2
+		}
+		hit := res.Viol != nil && res.Viol.Signature == f.Signature
+		switch {
+		case hit && f.Status == "open":
+			fmt.Printf("KNOWN-FINDING: property=%s %s %s\n", prop, f.Signature, f.WhatFails)
+			reproduced = append(reproduced, f.Signature)
+		case hit && f.Status == "fixed":
+			fmt.Printf("VIOLATION property=%s replay=%s\n", prop, path)
+			fmt.Printf("  (fixed finding %s is back: %s)\n", f.Signature, res.Viol.Detail)
+			exit = 1
+		case !hit && f.Status == "open":
+			fmt.Printf("NOTE: open finding %s did not reproduce from %s (repaired?)\n", f.Signature, f.Replay)
+		}
+		if res.Viol != nil && res.Viol.Signature != f.Signature {
+			// replay ran into a different violation
+			fmt.Printf("NOTE: replay %s now ends in %s\n", f.Replay, res.Viol.Signature)
+		}
+	}
+
+	// 2. exploration
+	a := &agg{distinct: map[string]bool{}, shapes: map[string]bool{}, grams: map[string]bool{}, stats: map[string]int{}, knownHits: map[string]int{}, perProfile: map[string]int{}}
+	deadline := time.Now().Add(time.Duration(budget) * time.Second)
+	self, _ := os.Executable()
+	var mu sync.Mutex
+	var wg sync.WaitGroup
+	workerFail := false
+	for i := 0; i < workers; i++ {
+		wg.Add(1)
+		go func(i int) {
+			defer wg.Done()
+			cmd := exec.Command(self, "worker", prop, fmt.Sprint(seed), fmt.Sprint(i), fmt.Sprint(workers), fmt.Sprint(deadline.Unix()), fmt.Sprint(maxRuns), tier)
+			cmd.Env = append(os.Environ(), "GOMAXPROCS=2")
+			cmd.Stderr = os.Stderr
+			stdout, err := cmd.StdoutPipe()
+			if err != nil {
+				mu.Lock()
+				workerFail = true
+				mu.Unlock()
+				return
+			}
+			if err := cmd.Start(); err != nil {
+				mu.Lock()
+				workerFail = true
+				mu.Unlock()
+				return
+			}
+			killer := time.AfterFunc(time.Until(deadline)+180*time.Second, func() { cmd.Process.Kill() })
+			sc := bufio.NewScanner(stdout)
+			sc.Buffer(make([]byte, 1<<20), 1<<28)
+			for sc.Scan() {
+				var r core.Result
+				if err := json.Unmarshal(sc.Bytes(), &r); err != nil {
+					mu.Lock()
+					workerFail = true
+					mu.Unlock()
+					continue
+				}
+				mu.Lock()
+				a.add(&r)
+				mu.Unlock()
+			}
+			err = cmd.Wait()
+			killer.Stop()
+			if err != nil {
+				fmt.Fprintf(os.Stderr, "worker %d failed: %v\n", i, err)
+				mu.Lock()
+				workerFail = true
+				mu.Unlock()
+			}
+		}(i)
+	}
+	wg.Wait()
+
+	// 3. violations: group by signature, minimise, write replay files
+	bySig := map[string]*core.Result{}
+	var sigs []string
+	for _, r := range a.violations {
+		if _, ok := bySig[r.Viol.Signature]; !ok {
+			bySig[r.Viol.Signature] = r
+			sigs = append(sigs, r.Viol.Signature)
+		}
+	}
+	sort.Strings(sigs)
+	os.MkdirAll(filepath.Join(verifDir, "replays"), 0o755)
+	minBudget := time.Duration(envInt("VERIF_MINIMISE_S", 60)) * time.Second
+	for i, sig := range sigs {
+		if i >= 5 {
+			fmt.Printf("  (%d more distinct signatures not minimised)\n", len(sigs)-5)
+			break
+		}
+		r := bySig[sig]
+		p := props.Find(r.Profile)
+		tape, replays := core.Minimise(p, r.Tape, sig, known, 400, time.Now().Add(minBudget))
+		// final confirmation in-process
+		final := core.Execute(p, chooser.NewReplayer(tape), known, "replay", true)
+		rf := &core.ReplayFile{Version: 1, Property: prop, Profile: r.Profile, Seed: r.Seed, Tape: tape}
+		if final.Viol != nil && final.Viol.Signature == sig {
+			rf.Expect.Signature, rf.Expect.Step, rf.Expect.LogHash, rf.Expect.Detail = sig, final.Viol.Step, final.LogHash, final.Viol.Detail
+			rf.Trace = final.Trace
+		} else {
+			rf.Tape = r.Tape
+			rf.Expect.Signature, rf.Expect.Step, rf.Expect.LogHash, rf.Expect.Detail = sig, r.Viol.Step, r.LogHash, r.Viol.Detail
+			rf.Trace = r.Trace
+		}
+		rf.Minimised.FromDraws, rf.Minimised.ToDraws, rf.Minimised.Replays = r.Tape.NumDraws(), rf.Tape.NumDraws(), replays
+		rf.Repo.Head, rf.Repo.Dirty = repoHead()
+		path := filepath.Join(verifDir, "replays", fmt.Sprintf("%s-%s-%d.json", prop, core.SigFile(sig), r.Seed))
+		if err := core.WriteReplay(path, rf); err != nil {
+			fmt.Fprintln(os.Stderr, "cannot write replay:", err)
+			return 2
+		}
+		fmt.Printf("VIOLATION property=%s replay=%s\n", prop, path)
+		fmt.Printf("  signature=%s seed=%d profile=%s step=%d draws %d->%d\n  %s\n", sig, r.Seed, r.Profile, rf.Expect.Step, rf.Minimised.FromDraws, rf.Minimised.ToDraws, rf.Expect.Detail)
+		exit = 1
+	}
+
+	wall := time.Since(start).Seconds()
+	if err := writeEvidence(prop, tier, seed, a, reproduced, len(sigs), wall, workers, ps); err != nil {
+		fmt.Fprintln(os.Stderr, "cannot write evidence:", err)
+		return 2
+	}
+	fmt.Printf("runs=%d nontrivial=%d distinct_nontrivial=%d shapes=%d grams=%d sim_time=%.0fs blocks=%d txs=%d wall=%.1fs known_hits=%v\n",
+		a.runs, a.nontrivial, len(a.distinct), len(a.shapes), len(a.grams), a.simSeconds, a.blocks, a.txs, wall, a.knownHits)
+	if len(a.errors) > 0 {
+		for i, r := range a.errors {
+			if i < 3 {
+				fmt.Fprintf(os.Stderr, "MACHINERY-ERROR profile=%s seed=%d: %s\n", r.Profile, r.Seed, firstLines(r.Err, 12))
+			}
+		}
+		fmt.Fprintf(os.Stderr, "%d runs ended in machinery errors\n", len(a.errors))
+		if exit == 0 {
+			return 2
+		}
+	}
+	if workerFail && exit == 0 {
+		return 2
+	}
+	if a.runs == 0 && exit == 0 {
+		fmt.Fprintln(os.Stderr, "no runs executed")
+		return 2
+	}
+	return exit
+}
+
+func firstLines(s string, n int) string {
+	ls := strings.Split(s, "\n")
+	if len(ls) > n {
+		ls = ls[:n]
+	}
+	return strings.Join(ls, "\n")
+}
+
+func (a *agg) add(r *core.Result) {
+	a.runs++
+	a.perProfile[r.Profile]++
+	a.simSeconds += r.SimSeconds
+	a.steps += r.Steps
+	a.blocks += r.Blocks
+	a.txs += r.Txs
+	a.wallMsInRuns += r.WallMs
+	for k, v := range r.Stats {
+		a.stats[k] += v
+	}
+	for k, v := range r.KnownHits {
+		a.knownHits[k] += v
+	}
+	a.shapes[r.Shape] = true
+	for _, g := range r.Grams {
+		a.grams[g] = true
+	}
+	if r.Nontrivial {
+		a.nontrivial++
+		a.distinct[r.LogHash] = true
+	}
+	if len(a.samples) < 3 && len(r.Trace) > 0 && r.Viol == nil && r.Err == "" {
+		tr := r.Trace
+		if len(tr) > 25 {
+			tr = tr[len(tr)-25:]
+		}
+		a.samples = append(a.samples, map[string]interface{}{"profile": r.Profile, "seed": r.Seed, "steps": r.Steps, "trace_tail": tr})
+	}
+	if r.Err != "" {
+		a.errors = append(a.errors, r)
+	} else if r.Viol != nil {
+		a.violations = append(a.violations, r)
+	}
+}
+
+func repoHead() (string, bool) {
+	out, err := exec.Command("git", "-C", "/repo", "rev-parse", "HEAD").Output()
+	head := strings.TrimSpace(string(out))
+	if err != nil {
+		head = "unknown"
+	}
+	st, _ := exec.Command("git", "-C", "/repo", "status", "--porcelain").Output()
+	return head, len(strings.TrimSpace(string(st))) > 0
+}
+
+func writeEvidence(prop, tier string, seed uint64, a *agg, reproduced []string, nviol int, wall float64, workers int, ps []*core.Profile) error {
+	var docs []string
+	for _, p := range ps {
+		docs = append(docs, p.Name+": "+p.Doc)
+	}
+	samples := a.samples
+	if len(samples) == 0 {
+		samples = []interface{}{"no trace sample kept"}
+	}
+	faults := map[string]int{}
+	probes := map[string]int{}
+	for k, v := range a.stats {
+		if strings.HasPrefix(k, "probe-") {
+			probes[k] = v
+		} else {
+			faults[k] = v
+		}
+	}
+	perHour := 0.0
+	if wall > 0 {
+		perHour = float64(a.runs) / wall * 3600
+	}
+	ev := map[string]interface{}{
+		"property_id": prop, "tier": tier, "seed": seed, "level": "exploration",
+		"wall_s": wall, "violations": nviol,
+		"coverage": map[string]interface{}{
+			"evaluations":         a.runs,
+			"distinct_nontrivial": len(a.distinct),
+			"rule": "one evaluation = one seeded simulated run (world config, workload, schedule and faults all drawn from the run seed = mix(VERIF_SEED, profile, index)); " +
+				"a run is non-trivial when it exercised the property's mechanism as defined per profile (see nontrivial_rule); distinct = distinct SHA-256 of the run's canonical event log (every block, tx result code and app hash)",
+			"nontrivial_rule":               evidenceRules[prop],
+			"samples":                       samples,
+			"profiles":                      docs,
+			"runs_per_profile":              a.perProfile,
+			"runs_per_hour":                 perHour,
+			"seeds_per_hour":                perHour,
+			"simulated_time_s":              a.simSeconds,
+			"steps":                         a.steps,
+			"blocks":                        a.blocks,
+			"txs":                           a.txs,
+			"faults_and_ops_fired":          faults,
+			"probes_hit":                    probes,
+			"distinct_op_outcome_sequences": len(a.shapes),
+			"distinct_op_outcome_3grams":    len(a.grams),
+			"nontrivial_runs":               a.nontrivial,
+			"known_findings_reproduced":     reproduced,
+			"known_finding_hits_in_runs":    a.knownHits,
+			"workers":                       workers,
+			"real_vs_stub":                  realVsStub[prop],
+		},
+		"assumptions": assumptions[prop],
+	}
+	bz, err := json.MarshalIndent(ev, "", " ")
+	if err != nil {
+		return err
+	}
+	os.MkdirAll(filepath.Join(verifDir, "evidence"), 0o755)
+	return os.WriteFile(filepath.Join(verifDir, "evidence", prop+".json"), bz, 0o644)
+}
+
+// ---------------------------------------------------------------- replay / run
+
+func cmdReplay(path string) int {
+	rf, err := core.ReadReplay(path)
+	if err != nil {
+		fmt.Fprintln(os.Stderr, err)
+		return 2
+	}
+	p := props.Find(rf.Profile)
+	if p == nil {
+		fmt.Fprintln(os.Stderr, "unknown profile", rf.Profile)
+		return 2
+	}
+	_, known := loadKnown(rf.Property)
+	delete(known, rf.Expect.Signature)
+	res := core.Execute(p, chooser.NewReplayer(rf.Tape), known, "replay", true)
+	for _, l := range res.Trace {
+		fmt.Println(l)
+	}
+	if res.Err != "" {
+		fmt.Fprintln(os.Stderr, "machinery error:", res.Err)
+		return 2
+	}
+	if res.Viol != nil && res.Viol.Signature == rf.Expect.Signature {
+		same := res.LogHash == rf.Expect.LogHash && res.Viol.Step == rf.Expect.Step
+		fmt.Printf("VIOLATION property=%s replay=%s\n  signature=%s step=%d identical_execution=%v\n  %s\n", rf.Property, path, res.Viol.Signature, res.Viol.Step, same, res.Viol.Detail)
+		return 1
+	}
+	if res.Viol != nil {
+		fmt.Printf("DIFFERENT-VIOLATION %s (expected %s): %s\n", res.Viol.Signature, rf.Expect.Signature, res.Viol.Detail)
+		return 1
+	}
+	fmt.Printf("NOT-REPRODUCED %s (expected %s)\n", path, rf.Expect.Signature)
+	return 0
+}
+
+func cmdRun(profile, seedStr string) int {
+	p := props.Find(profile)
+	if p == nil {
+		fmt.Fprintln(os.Stderr, "unknown profile", profile)
+		return 2
+	}
+	seed, _ := strconv.ParseUint(seedStr, 10, 64)
+	_, known := loadKnown(p.Property)
+	if os.Getenv("VERIF_NO_KNOWN") != "" {
+		known = map[string]bool{}
+	}
+	res := core.Execute(p, chooser.NewGenerator(seed), known, "run", true)
+	res.Seed = seed
+	for _, l := range res.Trace {
+		fmt.Println(l)
+	}
+	fmt.Printf("steps=%d blocks=%d txs=%d nontrivial=%v loghash=%s wall=%dms known=%v\nstats=%v\n", res.Steps, res.Blocks, res.Txs, res.Nontrivial, res.LogHash[:16], res.WallMs, res.KnownHits, res.Stats)
+	if res.Err != "" {
+		fmt.Println("ERR", res.Err)
+		return 2
+	}
+	if res.Viol != nil {
+		fmt.Printf("VIOLATION %s step=%d: %s\n", res.Viol.Signature, res.Viol.Step, res.Viol.Detail)
+		if out := os.Getenv("VERIF_SAVE"); out != "" {
+			tape, n := core.Minimise(p, res.Tape, res.Viol.Signature, known, 400, time.Now().Add(90*time.Second))
+			final := core.Execute(p, chooser.NewReplayer(tape), known, "replay", true)
+			rf := &core.ReplayFile{Version: 1, Property: p.Property, Profile: p.Name, Seed: seed, Tape: tape, Trace: final.Trace}
+			if final.Viol == nil {
+				fmt.Println("minimised tape does not reproduce")
+				return 2
+			}
+			rf.Expect.Signature, rf.Expect.Step, rf.Expect.LogHash, rf.Expect.Detail = final.Viol.Signature, final.Viol.Step, final.LogHash, final.Viol.Detail
+			rf.Minimised.FromDraws, rf.Minimised.ToDraws, rf.Minimised.Replays = res.Tape.NumDraws(), tape.NumDraws(), n
+			rf.Repo.Head, rf.Repo.Dirty = repoHead()
+			if err := core.WriteReplay(out, rf); err != nil {
+				fmt.Println(err)
+				return 2
+			}
+			fmt.Printf("saved %s (draws %d->%d)\n", out, rf.Minimised.FromDraws, rf.Minimised.ToDraws)
+		}
+		return 1
+	}
+	return 0
+}
+
+// ---------------------------------------------------------------- determinism self-test
+
+func cmdSelftestDeterminism(args []string) int {
+	plist := args
+	if len(plist) == 0 {
+		plist = props.Properties()
+	}
+	self, _ := os.Executable()
+	nSeeds := envInt("VERIF_DET_SEEDS", 6)
+	bad := 0
+	total := 0
+	for _, prop := range plist {
+		for _, p := range props.Profiles(prop) {
+			for s := 0; s < nSeeds; s++ {
+				seed := chooser.Mix(uint64(envInt("VERIF_SEED", 1)), "det/"+p.Name, uint64(s))
+				var hashes []string
+				for _, gmp := range []string{"1", "4", "16"} {
+					cmd := exec.Command(self, "run", p.Name, fmt.Sprint(seed))
+					cmd.Env = append(os.Environ(), "GOMAXPROCS="+gmp, "TZ=Asia/Tokyo")
+					out, _ := cmd.CombinedOutput()
+					h := ""
+					for _, l := range strings.Split(string(out), "\n") {
+						if i := strings.Index(l, "loghash="); i >= 0 {
+							h = l[i:]
+						}
+					}
+					hashes = append(hashes, h)
+				}
+				total++
+				if hashes[0] == "" || hashes[0] != hashes[1] || hashes[1] != hashes[2] {
+					bad++
+					fmt.Printf("NONDETERMINISTIC profile=%s seed=%d: %v\n", p.Name, seed, hashes)
+				}
+			}
+		}
+	}
+	fmt.Printf("determinism self-test: %d (profile,seed) pairs x 3 processes (GOMAXPROCS 1/4/16), %d mismatches\n", total, bad)
+	if bad > 0 {
+		return 2
+	}
+	return 0
 }
